@@ -163,6 +163,16 @@ Theorem card_flip_is_model_cardFlip d :
   card_to_Z (Adapt.Dialect.SepPairModel.cardFlip d) = card_flip (card_to_Z d) /\ is_card (card_to_Z d).
 Proof. destruct d; vm_compute; repeat split; intros; discriminate. Qed.
 
+(* Compass::vectorSigns (a `switch`, translated as a chain of ifs) applied to a computed compass direction gives the signs of (dx, dy) *)
+Definition sgnQ (x : Q) : Q := if Qltb 0 x then 1 else if Qltb x 0 then -1 else 0.
+Theorem vectorSigns_of_compassDirection p0 p1 : distinct p0 p1 ->
+  let v := vectorSigns (compassDirection p0 p1) in
+  px v == sgnQ (ddx p0 p1) /\ py v == sgnQ (ddy p0 p1).
+Proof.
+  unfold distinct, sgnQ. cbv zeta. unfold vectorSigns. unf. intros H.
+  cases; cbn; split; try reflexivity; try lra; exfalso; try (destruct H as [H|H]; apply H; lra); lra.
+Qed.
+
 Example compass_nonvacuous :
   distinct (mkpt 0 0) (mkpt 3 (-1)) /\ cardinalDirection (mkpt 0 0) (mkpt 3 (-1)) = 0%Z /\
   compassDirection (mkpt 0 0) (mkpt 3 (-1)) = 7%Z /\ cardinalDirection (mkpt 1 1) (mkpt 1 5) = 1%Z.
